@@ -12,12 +12,18 @@ failed write is part of the model (C20). The success path of the tree is the out
 
 /-! ## Errors -/
 
+/-- what the message of a cause-less (`Errorf`-made) error says; `byCause` = the text of the cause -/
+inductive Msg where
+  | byCause | undefinedTag | unterminated | notInside | cycleOutside | loopMod | includeArg | tagSyntax
+  deriving Repr, DecidableEq, Inhabited
+
 /-- a `parser.Error` / `render.Error`: line, whether its path is the template's path (false =
-    the empty path of `invalidLoc`), and `Cause()` (`Cause.none` = nil) -/
+    the empty path of `invalidLoc`), `Cause()` (`Cause.none` = nil) and what its message names -/
 structure SErr where
   line : Nat
   pathSet : Bool
   cause : Cause
+  msg : Msg := .byCause
   deriving Repr, DecidableEq, Inhabited
 
 inductive RawErr where
@@ -39,13 +45,13 @@ def Loc.isZero (path : Bytes) (l : Loc) : Bool := (!l.pathSet || path.isEmpty) &
 /-- `parser.WrapError(err, loc)` (after the repair of D12) -/
 def wrapError (path : Bytes) (err : RawErr) (loc : Loc) : SErr :=
   match err with
-  | .plain c => ⟨loc.line, loc.pathSet, c⟩
+  | .plain c => ⟨loc.line, loc.pathSet, c, .byCause⟩
   | .located e =>
     if (e.pathSet && !path.isEmpty) || e.line != 0 || loc.isZero path then e
-    else ⟨loc.line, loc.pathSet, if e.cause == .none then .other "SourceError" else e.cause⟩
+    else ⟨loc.line, loc.pathSet, if e.cause == .none then .other "located:none" else e.cause, e.msg⟩
 
 /-- `parser.Errorf(loc, …)`: a located error without cause -/
-def errorfAt (loc : Loc) : SErr := ⟨loc.line, loc.pathSet, .none⟩
+def errorfAt (loc : Loc) (m : Msg) : SErr := ⟨loc.line, loc.pathSet, .none, m⟩
 
 /-! ## The compiled tree -/
 
@@ -91,7 +97,7 @@ abbrev CRes (α : Type) := Res SErr α
 
 def liftParse {α} (line : Nat) (keepCause : Bool) : Res ParseErr α → CRes α
   | .ok a => .ok a
-  | .err _ => .err ⟨line, true, if keepCause then .syntax else .none⟩
+  | .err _ => .err (if keepCause then ⟨line, true, .syntax, .byCause⟩ else ⟨line, true, .none, .tagSyntax⟩)
   | .panic w => .panic w
   | .unmodelled w => .unmodelled w
 
@@ -113,7 +119,7 @@ def compileCaseClauses : List (Token × List Node) → CRes (List (Option (List 
         let st ← liftParse t.line true (parseStatement kwWhen t.args)
         match st with
         | .when es => pure (some es)
-        | _ => .err ⟨t.line, true, .syntax⟩
+        | _ => .err ⟨t.line, true, .syntax, .byCause⟩
       else pure none : CRes (Option (List Expr)))
     let rest ← compileCaseClauses cs
     pure ((c, body) :: rest)
@@ -127,7 +133,7 @@ def compileNode : AST → CRes (List Node)
     -- the object was parsed by `parseTokens` already; re-parse to obtain the tree
     (match parseExprSource t.args with
      | .ok e => .ok [.obj t.line e]
-     | .err _ => .err ⟨t.line, true, .syntax⟩
+     | .err _ => .err ⟨t.line, true, .syntax, .byCause⟩
      | .panic w => .panic w
      | .unmodelled w => .unmodelled w)
   | .trim l => .ok [.trim l]
@@ -137,7 +143,7 @@ def compileNode : AST → CRes (List Node)
       let st ← liftParse t.line false (parseStatement kwAssign t.args)
       match st with
       | .assign x e => pure [.assign t.line x e]
-      | _ => .err ⟨t.line, true, .none⟩
+      | _ => .err ⟨t.line, true, .none, .tagSyntax⟩
     else if t.name == nmInclude then .ok [.incl t.line t.args]
     else if t.name == nmBreak then .ok [.brk t.line]
     else if t.name == nmContinue then .ok [.cont t.line]
@@ -145,8 +151,8 @@ def compileNode : AST → CRes (List Node)
       let st ← liftParse t.line false (parseStatement kwCycle t.args)
       match st with
       | .cycle g vs => pure [.cycle t.line g vs]
-      | _ => .err ⟨t.line, true, .none⟩
-    else .err ⟨t.line, true, .none⟩            -- undefined tag
+      | _ => .err ⟨t.line, true, .none, .tagSyntax⟩
+    else .err ⟨t.line, true, .none, .undefinedTag⟩
   | .block t body clauses => do
     let b ← compileList body
     let cs ← compileClauses clauses
@@ -163,7 +169,7 @@ def compileNode : AST → CRes (List Node)
       let st ← liftParse t.line true (parseStatement kwLoop t.args)
       match st with
       | .loop x e m => pure [.loop t.line (t.name == nmTablerow) x e m b (cs.map (·.2))]
-      | _ => .err ⟨t.line, true, .syntax⟩
+      | _ => .err ⟨t.line, true, .syntax, .byCause⟩
     else if t.name == nmCapture then pure [.capture t.line t.args b]
     else .unmodelled "block without a standard compiler"
 def compileList : List AST → CRes (List Node)
@@ -188,8 +194,12 @@ def objChk (args : Bytes) : Option Cause :=
 
 def liftPErr : Res PErr α → CRes α
   | .ok a => .ok a
-  | .err e => .err ⟨e.line, true, match e.kind with
-      | .objSyntax c => c | .tagSyntax c => c | _ => .none⟩
+  | .err e => .err (match e.kind with
+      | .objSyntax c => ⟨e.line, true, c, .byCause⟩
+      | .tagSyntax c => ⟨e.line, true, c, .byCause⟩
+      | .notInside => ⟨e.line, true, .none, .notInside⟩
+      | .unterminated => ⟨e.line, true, .none, .unterminated⟩
+      | .undefinedTag => ⟨e.line, true, .none, .undefinedTag⟩)
   | .panic w => .panic w
   | .unmodelled w => .unmodelled w
 
@@ -534,7 +544,7 @@ def intModifier (P : Prims) (e : Option Expr) (blockLoc : Loc) : M (Option Int) 
     let v ← M.ofRes (evaluate P env ex)
     match v with
     | .int .int n => pure (some n)
-    | _ => M.fail (.located (errorfAt blockLoc))        -- "loop offset/limit/cols must be an integer"
+    | _ => M.fail (.located (errorfAt blockLoc .loopMod))        -- "loop offset/limit/cols must be an integer"
 
 mutual
 def renderNode (c : RCtx) : Node → M Status
@@ -542,7 +552,7 @@ def renderNode (c : RCtx) : Node → M Status
   | .obj line e => wrapFailAt c.cfg.path ⟨line, true⟩ (do
       let env ← M.getEnv
       let v ← M.ofRes (evaluate c.P env e)
-      if v.isNil && c.cfg.strict then M.fail (.plain (.other "undefined variable")) else do
+      if v.isNil && c.cfg.strict then M.fail (.plain (.other "undefinedVariable")) else do
       let chunks ← M.ofRes (c.O.chunks v)
       writeAllM chunks
       pure .done)
@@ -579,7 +589,7 @@ def renderNode (c : RCtx) : Node → M Status
       let items := match lim with
         | some l => if l ≥ 0 then items2.take l.toNat else items2
         | none => items2
-      if clauses.length > 1 then M.fail (.plain (.other "for loops accept at most one else clause")) else
+      if clauses.length > 1 then M.fail (.plain (.other "forElse")) else
       match items, clauses with
       | [], [els] => renderBlockBody c els
       | _, _ => do
@@ -599,7 +609,7 @@ def renderNode (c : RCtx) : Node → M Status
     wrapFailAt c.cfg.path loc (do
       let lv ← M.getVar nmForloop
       match cyclesOf lv with
-      | none => M.fail (.located (errorfAt loc))          -- "cycle must be within a forloop"
+      | none => M.fail (.located (errorfAt loc .cycleOutside))          -- "cycle must be within a forloop"
       | some (cyc, rebuild) =>
         let n := cycleGet cyc group
         M.setVar nmForloop (rebuild (cycleSet cyc group (n + 1)))
@@ -622,7 +632,7 @@ def renderNode (c : RCtx) : Node → M Status
         (match st with
          | .done => do writeM out; pure .done
          | st => pure st)
-      | _ => M.fail (.located (errorfAt loc)))             -- "include requires a string argument"
+      | _ => M.fail (.located (errorfAt loc .includeArg)))             -- "include requires a string argument"
 def renderList (c : RCtx) : List Node → M Status
   | [] => pure .done
   | n :: ns => do
@@ -673,7 +683,7 @@ def renderFileWith (P : Prims) (O : OutPrims) (cfg : Cfg) (fs : FS)
     | .notExist => fs.cache filename
     | .otherError => none
   match src? with
-  | none => .fail (.plain (.other "read"))
+  | none => .fail (.plain (.other "notExist"))
   | some src =>
     match compileSource cfg.delims src line with
     | .err e => .fail (.located e)
@@ -723,6 +733,6 @@ def run (P : Prims) (O : OutPrims) (cfg : Cfg) (fs : FS) (fuel : Nat) (src : Byt
     match (frender P O cfg fs fuel root env).runPure with
     | (out, .ok _) => .ok out
     | (_, .err (.located e)) => .err e
-    | (_, .err (.plain c)) => .err ⟨0, false, c⟩       -- cannot happen: every node wraps (see `frender_err_located`)
+    | (_, .err (.plain c)) => .err ⟨0, false, c, .byCause⟩       -- cannot happen: every node wraps (see `frender_err_located`)
     | (_, .panic w) => .panic w
     | (_, .unmodelled w) => .unmodelled w
